@@ -10,7 +10,7 @@ ROOT = os.path.dirname(os.path.dirname(os.path.abspath(__file__)))
 def main():
     res = {}
     for l in open(os.path.join(ROOT, 'build', 'seed_sweep.txt')):
-        m = re.match(r'^(C\d\d-[ab]) rc=(\d+) violations=(\d+) without-input=(\d+) :: (.*)$', l.strip())
+        m = re.match(r'^(C\d\d-[a-z]) rc=(\d+) violations=(\d+) without-input=(\d+) :: (.*)$', l.strip())
         if m:
             res[m.group(1)] = (int(m.group(2)), int(m.group(3)), int(m.group(4)), m.group(5))
     rows = ['| seed | change (summary of the author) | caught | how |', '|---|---|---|---|']
@@ -31,6 +31,16 @@ def main():
                 how = '-'
             meta['detected'] = dict(check='./check %s --tier quick' % n[:3], violations=v, without_concrete_input=nf, first=first[:300])
             json.dump(meta, open(mp, 'w'), indent=1)
+        elif 'detected' in meta:
+            dd = meta['detected']
+            v, nf, first = dd.get('violations', 0), dd.get('without_concrete_input', 0), dd.get('first', '')
+            caught = 'yes' if v > 0 else 'NO'
+            if v > 0 and nf == v:
+                how = 'theorem / correspondence broken, no failing input found'
+            elif v > 0:
+                how = 'concrete input: ' + re.sub(r'^VIOLATION property=\S+ replay=\S+ ', '', first)[:110].replace('|', '/')
+            else:
+                how = '-'
         else:
             caught, how = '?', 'not in the last sweep'
         rows.append('| %s | %s | %s | %s |' % (n, summ.replace('|', '/'), caught, how))
